@@ -81,7 +81,7 @@ class SqlGen:
                                         '0xFF', '100', '-1', '3.14']))]
 
     def dollar(self):
-        tag = self.r.choice(['', 'tag', 'A', '_x', 'fn'])
+        tag = self.r.choice(['', 'tag', 'A', '_x', 'fn', 'q1', 'body2', 'T_9'])
         body = self.r.choice(['', 'body', 'select 1; select 2', "it's", '$ x $', 'BEGIN x; END;',
                               '\n line \n'])
         return [('lit', f'${tag}${body}${tag}$')]
